@@ -37,7 +37,7 @@ TReset(e) ==
 
 (* the kinds this transcription describes, in builds where an error is an exception *)
 Fast == cfg.kind \in {"fast_dyn", "fast_static"} /\ cfg.fl = "exc"
-FOps == {"Insert", "Erase", "Dispatch", "Clone", "Take", "Drop2"}
+FOps == {"Insert", "Erase", "Dispatch", "Clone", "Take", "Drop2", "New2"}
 Skip == UNCHANGED <<cfg, idx, next, cbs, next2, cbs2, has2, ub, hist, last, pre, areg, areg2>> /\ what' = ""
 
 Apply(e) == LET a == e.a IN
@@ -48,6 +48,7 @@ Apply(e) == LET a == e.a IN
     \/ e.op = "Clone"    /\ Fast /\ Clone(a.how)
     \/ e.op = "Take"     /\ Fast /\ Take(a.how)
     \/ e.op = "Drop2"    /\ Fast /\ Drop2
+    \/ e.op = "New2"     /\ Fast /\ New2
     \/ e.op \in FOps /\ ~Fast /\ Skip
     \/ e.op \in {"Static", "StaticSym", "Accept", "Cyclic"} /\ Skip
 
@@ -58,7 +59,7 @@ TNext ==
         /\ (Fast' /\ e.op \in FOps \cup {"Reset"}) =>
               /\ [c \in 1..5 |-> idx'[c]] = e.l2.idx
               /\ (e.op = "Dispatch" => what' = e.l2.what)
-              /\ ~ub'
+              /\ (Mutation # "two_fresh" => ~ub')
     /\ l' = l + 1
 
 TSpec == TInit /\ [][TNext]_<<ivars, l>>
